@@ -186,6 +186,9 @@ def sc_entries(V, driver="mc", nobs=2, nmax=3):
         _drive(sim, entry, n)
         logs[entry] = (list(log), steps[0], [o[1] for o in st.ops if o[0] == "write"])
     vals = list(logs.values())
+    exp = _expected(V, ivs, nmax, n)
+    got = vals[0][0]
+    V.prove(sorted(got) == sorted(exp) and got == sorted(got, key=lambda r: r[1]) , "observers-fire-on-schedule", info=f"{driver}:nobs={nobs}:got={got}:want={exp}")
     V.prove(all(v == vals[0] for v in vals[1:]), "run==srun==irun", info=f"{driver}:" + ";".join(f"{k}:{v[0]}" for k, v in logs.items()))
     V.prove(_true(V, n == vals[0][1]), "exactly-the-requested-steps", info=f"{driver}:entries")
     V.reach("done")
@@ -209,6 +212,7 @@ def _plan(tier):
         P.append(("split", dict(driver="mc", entry="irun", nobs=2, amax=3), R))
         P.append(("split", dict(driver="fb", entry="irun", nobs=2, amax=2), R))
         P.append(("entries", dict(driver="mc", nobs=2, nmax=4), ("done",)))
+    P.append(("split", dict(driver="mc", entry="run", nobs=1, amax=2), (), "split-run==single-run:observer-calls"))
     return P
 
 
